@@ -106,7 +106,7 @@ def gen_cases(tier, seed):
             name = "s%d" % k
             if flag0 != "--glob":
                 # the source's own name and position: nested below other directories, with spaces, non-ASCII characters, a newline (the CLI itself rejects non-UTF-8 arguments)
-                name = ("nst/in/" if nest and r.random() < 0.7 else "") + name + r.choice(["", "", "", " x y", "-\xc3\xbc", "\nz"])
+                name = ("nst/in/" if nest and r.random() < 0.7 else "") + name + r.choice(["", "", "", " x y", "-\xc3\xbc", "\nz", ".", "..", "-v1."])      # (a name may well end in a dot, or in two)
             if shape in ("tree", "deep"):
                 spec.append({"p": name, "k": "d"})
                 spec += tree.gen_tree(r, depth=2 if shape == "tree" else 5, fanout=4 if shape == "tree" else 2,
